@@ -257,6 +257,7 @@ def run():
             perms.append(p + p[: len(p) // 3])  # some documents a second time in the same process
         together = list(ex.map(lambda p: worker(mode, p, timeout=1500), perms))
     base = {}
+    changed_globals = set()
     for it, r in zip(pool, alone):
         if r.get("error"):
             ck.notes.append("worker failed alone on %s: %s" % (it, r["error"][-200:]))
@@ -267,7 +268,7 @@ def run():
             ck.nontriv(it)
         for g in r["globals_changed"]:
             if g != "psd_tools.psd.descriptor._TERMS":
-                ck.fail("module-global-changed", {"name": g, "session": [it]}, "changed", "unchanged")
+                changed_globals.add(g)
     ck.sample({"document": pool[0], "observations_alone": base.get(pool[0])})
     for p, r in zip(perms, together):
         if r.get("error"):
@@ -279,7 +280,7 @@ def run():
         ck.count("terms_added_in_session", len(r["terms_added"]))
         for g in r["globals_changed"]:
             if g != "psd_tools.psd.descriptor._TERMS":
-                ck.fail("module-global-changed", {"name": g, "session": p[:5]}, "changed", "unchanged")
+                changed_globals.add(g)
         for idx, (it, obs) in enumerate(r["results"]):
             b = base.get(it)
             if b is None:
@@ -291,6 +292,32 @@ def run():
                 ck.fail("history-dependent-result", {"document": it, "position": idx, "session_prefix": p[:idx]},
                         {k: obs.get(k) for k in diff}, {k: b.get(k) for k in diff},
                         only_lowlevel_bytes=only_low, vanishes_with_terms_reset=vanish and only_low, level="document")
+    # twin sessions: the same document after an identifier-preserving, payload-changing twin of itself
+    twins = [f for f in files if os.path.getsize(f) <= lim]
+    with ThreadPoolExecutor(max_workers=14) as ex:
+        tw = list(ex.map(lambda f: worker(mode, ["twin:" + f, f]), twins))
+    for f, r in zip(twins, tw):
+        if r.get("error") or len(r["results"]) != 2:
+            ck.notes.append("twin session failed on %s: %s" % (f, str(r.get("error"))[-200:]))
+            continue
+        ck.evals += 1
+        tobs, obs = r["results"][0][1], r["results"][1][1]
+        ck.count("twin:" + ("payload-changed" if tobs.get("twin_payloads_changed") else "identical"))
+        for g in r["globals_changed"]:
+            if g != "psd_tools.psd.descriptor._TERMS":
+                changed_globals.add(g)
+        b = base.get(f)
+        if b is None or not tobs.get("twin_payloads_changed"):
+            continue
+        diff = sorted(k for k in set(b) | set(obs) if k != "lowlevel_rewrite_terms_reset" and b.get(k) != obs.get(k))
+        if diff:
+            ck.fail("history-dependent-result", {"document": f, "position": 1, "session_prefix": ["twin:" + f]},
+                    {k: obs.get(k) for k in diff}, {k: b.get(k) for k in diff},
+                    only_lowlevel_bytes=False, vanishes_with_terms_reset=False, level="twin")
+    # a module-level container of psd_tools that changes while documents are processed is process-wide state the
+    # inventory did not know: the "no other global" part of the argument no longer checks (an obligation, not by itself a failing input)
+    ck.obligations.append(("module-globals-unchanged", not changed_globals,
+                           "changed during sessions: " + ", ".join(sorted(changed_globals)) if changed_globals else ""))
     # ---------------- (c) fresh structures share no mutable state
     classes = all_element_classes()
     built = 0
@@ -338,6 +365,6 @@ def replay(path):
         print("in session :", impl_session(ops, T0))
         print("alone      :", impl_session([ops[-1]], T0))
     elif "document" in inp:
-        print("alone   :", worker("plain", [inp["document"]])["results"])
-        print("session :", worker("plain", inp["session_prefix"] + [inp["document"]])["results"][-1])
+        print("alone   :", worker("composite", [inp["document"]])["results"])
+        print("session :", worker("composite", inp["session_prefix"] + [inp["document"]])["results"][-1])
     return 1
